@@ -78,8 +78,14 @@ def requested_writers(run, F, E):
             if e['k'] == 'asg':
                 direct |= E.lv(e['l'], fn)
         if ('core', 'registry', 'requested') in direct or (fn.tkey == 'ffsm2::detail::Registry' and ('this', 'requested') in direct):
-            run.ob('C02.b', '%s is an expected writer of registry.requested' % fn.short, tk_short(fn) in allowed, where=fn.pat,
-                   key='%s writes registry.requested' % fn.short)
+            ok = tk_short(fn) in allowed
+            why = 'is an expected writer of registry.requested'
+            if not ok and anchors.is_internal_helper(F, fn):
+                # a non-public helper: fine when everything that can call it (transitively, through other helpers) is an expected writer
+                offenders = anchors.reached_only_from(F, E, fn, allowed)
+                ok = not offenders and bool(E.callers().get(fn.id))
+                why = 'is a non-public helper reached only from the expected writers of registry.requested'
+            run.ob('C02.b', '%s %s' % (fn.short, why), ok, where=fn.pat, key='%s writes registry.requested' % fn.short)
     # in the loops the request handed to applyRequest is the outstanding one
     for root_name in ('processRequest', 'initialEnter'):
         for root in F.find('R_', root_name):
